@@ -1,7 +1,7 @@
 // ---------------------------------------------------------------------------------------------
 // Appended by /verif (Kani units K-PAD, K-BLK, K-NEW).  Compiled only under cfg(kani).
 #[cfg(kani)]
-mod verif_proofs {
+pub(crate) mod verif_proofs {
     use super::*;
     use crate::time::{Duration as DurT, Instant as InstT};
 
@@ -121,7 +121,6 @@ mod verif_proofs {
             blocking_started: VInst(kani::any()),
             blocking_active: kani::any(),
             signal_pending: None,
-            counter_zeroed_once: (kani::any(), kani::any()),
             framework_start: VInst(kani::any()),
         }
     }
@@ -136,6 +135,7 @@ mod verif_proofs {
             allowed_blocked_microsec: VDur(kani::any()),
             counter_a: kani::any(),
             counter_b: kani::any(),
+            counter_zeroed_once: (kani::any(), kani::any()),
         }
     }
 
@@ -177,7 +177,6 @@ mod verif_proofs {
             blocking_started: t0,
             blocking_active: false,
             signal_pending: None,
-            counter_zeroed_once: (false, false),
             framework_start: t0,
         };
         kani::assume(f.normal_sent_packets.checked_add(f.padding_sent_packets).is_some());
@@ -191,6 +190,7 @@ mod verif_proofs {
             allowed_blocked_microsec: VDur(0),
             counter_a: 0,
             counter_b: 0,
+            counter_zeroed_once: (false, false),
         };
         kani::assume(rt.normal_sent.checked_add(rt.padding_sent).is_some());
         let m = Machine {
@@ -314,5 +314,19 @@ mod verif_proofs {
             states: vec![s],
         };
         (f, rt, m)
+    }
+
+    // ---- C12/C01: Framework::new accepts exactly fractions in [0,1] (zero machines: the machine
+    // loop is Verus' job)
+    #[kani::proof]
+    #[kani::unwind(3)]
+    pub(crate) fn k_new_fracs() {
+        let p: f64 = kani::any();
+        let b: f64 = kani::any();
+        let r = Framework::new(Vec::<Machine>::new(), p, b, VInst(kani::any()), NoRng);
+        let ok = |f: f64| !f.is_nan() && f >= 0.0 && f <= 1.0;
+        assert!(r.is_ok() == (ok(p) && ok(b)), "[C12.new]");
+        kani::cover!(r.is_ok(), "accepted");
+        std::mem::forget(r);
     }
 }
